@@ -23,13 +23,10 @@ func (s *Server) HandleBefore(
 	_ *proxy.Proxy,
 	pctx *proxy.DNSContext,
 ) (err error) {
-	clientID, err := s.clientIDFromDNSContext(pctx)
-	if err != nil {
-		return &proxy.BeforeRequestError{
-			Err:      fmt.Errorf("getting clientid: %w", err),
-			Response: s.NewMsgSERVFAIL(pctx.Req),
-		}
-	}
+	// Check the access settings before reporting a ClientID error, so that
+	// the clients excluded by the settings only ever get the response for the
+	// blocked ones.  clientID is empty if there is an error.
+	clientID, cidErr := s.clientIDFromDNSContext(pctx)
 
 	blocked, _ := s.IsBlockedClient(pctx.Addr.Addr(), clientID)
 	if blocked {
@@ -44,6 +41,13 @@ func (s *Server) HandleBefore(
 			log.Debug("access: request %s %s is in access blocklist", dns.Type(qt), host)
 
 			return s.preBlockedResponse(pctx)
+		}
+	}
+
+	if cidErr != nil {
+		return &proxy.BeforeRequestError{
+			Err:      fmt.Errorf("getting clientid: %w", cidErr),
+			Response: s.NewMsgSERVFAIL(pctx.Req),
 		}
 	}
 
